@@ -110,13 +110,26 @@ func settled(baseFds []int, what string) string {
 	}
 }
 
+var lastC13Violation string
+
 func runC13(c *LCase, failFirst bool) (viol string, nontrivial bool, feats []string) {
 	defer engine.Guard()
 	journal(c)
 	base := engine.InotifyFds()
 	if g := engine.FsnotifyGoroutines(); len(g) != 0 {
+		if lastC13Violation != "" {
+			// an earlier case of this process already failed and left its
+			// goroutines behind (rapid is re-running to shrink): the baseline is
+			// gone, report the violation already found
+			return lastC13Violation, true, nil
+		}
 		engine.ExitInconclusive("fsnotify goroutines exist before the case: " + g[0])
 	}
+	defer func() {
+		if viol != "" {
+			lastC13Violation = viol
+		}
+	}()
 	if failFirst {
 		w, err, ok := failingNewWatcher(c.Buf)
 		if ok {
@@ -199,7 +212,7 @@ func TestC13Soak(t *testing.T) {
 				continue
 			}
 		} else {
-			w, err = fsnotify.NewBufferedWatcher(uint(i % 3))
+			w, err = engine.NewWatcherRetry(i % 3)
 		}
 		if err != nil {
 			engine.ExitInconclusive("NewWatcher: " + err.Error())
